@@ -20,6 +20,9 @@ EXPLANATION = (
     "The lexer's command dispatch never reads its cursor (self.pos / limit / pathd): how a command is read cannot depend on "
     "where in the string it stands, which is exactly what differs between Path(a b) and Path(a) + b. "
     "Not decided: segment-wise numeric equality."
+    " R17.4 covers the reflected operator as well: for string + path, with the path's transform the identity"
+    ' the appended segments derive from the path; otherwise they derive from abs(path) / d() - conditional'
+    ' expressions are resolved by the scenario.'
 )
 TECHNIQUE = (
     "static analysis (no execution): effect analysis (which attributes the lexer stores and the builders read); cursor-independence lint of the dispatch; operator type-dispatch following for += / +"
